@@ -231,6 +231,28 @@ fn cafe(_: &mut ZooA, n: u32, who: String) {
     rec(format!("cafe({n},{who})"));
 }
 
+/// Two different functions under one keyword with the very same matcher text: both are
+/// registered, so the step is ambiguous between the two.
+#[then(regex = r"^twice (\d+)$")]
+fn dup1(_: &mut ZooA, n: u8) {
+    rec(format!("dup1({n})"));
+}
+
+#[then(regex = r"^twice (\d+)$")]
+fn dup2(_: &mut ZooA, n: u8) {
+    rec(format!("dup2({n})"));
+}
+
+#[given("same literal")]
+fn dup_lit1(_: &mut ZooA) {
+    rec("dup_lit1()".into());
+}
+
+#[given("same literal")]
+fn dup_lit2(_: &mut ZooA) {
+    rec("dup_lit2()".into());
+}
+
 // ---- ZooB ----------------------------------------------------------------
 
 #[given("a literal step")]
@@ -475,6 +497,16 @@ pub fn entries() -> Vec<Entry> {
                 }
             })
         }),
+        e(0, Then, "dup1", |t| {
+            let n = t.strip_prefix("twice ")?;
+            digits(n).then(|| Expect::Call(format!("dup1({n})")))
+        }),
+        e(0, Then, "dup2", |t| {
+            let n = t.strip_prefix("twice ")?;
+            digits(n).then(|| Expect::Call(format!("dup2({n})")))
+        }),
+        e(0, Given, "dup_lit1", |t| (t == "same literal").then(|| Expect::Call("dup_lit1()".into()))),
+        e(0, Given, "dup_lit2", |t| (t == "same literal").then(|| Expect::Call("dup_lit2()".into()))),
         e(1, Given, "b_lit", |t| (t == "a literal step").then(|| Expect::Call("b_lit(7)".into()))),
         e(1, When, "b_re", |t| {
             let n = t.strip_prefix("b ")?;
@@ -527,6 +559,7 @@ pub fn texts(max_tokens: usize) -> Vec<String> {
         "async 7", "async 256", "async x", "result ok", "result err", "result maybe", "alias ok", "alias err", "alias maybe", "io ok", "io err",
         "async result ok", "async result no", "async result two words",
         "parse 12", "parse 300", "parse x", "parse -1", "multi lit", "multi re", "multi expr", "multi", "multi lit ",
+        "twice 2", "twice x", "same literal", "same  literal",
         "abc named group", "two words named group", "éa named group", "zoë named group",
         "café 12 crêpes for Chloé", "café 7 crêpes for é", "café 7 crêpes for Zoëé", "cafe 12 crêpes for Chloé",
         "café 99999999999 crêpes for Chloé", "b 12", "b 70000", "b x",
@@ -703,7 +736,7 @@ pub fn run(a: &ShardArgs) -> serde_json::Value {
         "property": "C19", "tier": a.tier,
         "total_configs": txts.len() * 6, "configs_done": counters.0, "configs_skipped_budget": 0,
         "evaluations": counters.0 + reg, "distinct_nontrivial": counters.1,
-        "rule": format!("a zoo of {} attribute instances on 24 functions for 2 Worlds (sync/async, unit/Result, typed args, slice, #[step] / `step` argument, literal / regex = / expr =, custom Parameter with one and several groups, several attributes on one fn, named group) x every text of <= {} tokens over a 12-token alphabet plus positive / near-miss texts of every entry (prefix, suffix, padding, case) x 3 keywords; non-trivial = lookups that dispatch to a function", es.len(), if a.thorough {5} else {3}),
+        "rule": format!("a zoo of {} attribute instances on 29 functions for 2 Worlds (sync/async, unit/Result, typed args, slice, #[step] / `step` argument, literal / regex = / expr =, custom Parameter with one and several groups, several attributes on one fn, named group) x every text of <= {} tokens over a 12-token alphabet plus positive / near-miss texts of every entry (prefix, suffix, padding, case) x 3 keywords; non-trivial = lookups that dispatch to a function", es.len(), if a.thorough {5} else {3}),
         "exhaustive": true,
         "violations": violations, "samples": samples,
     })
